@@ -20,11 +20,13 @@ global size_of usize == 8;
 // ================= coupons (hll/mod.rs) =================
 const KEY_BITS_26 : u32 = 26 ;
 
+
 exec const KEY_MASK_26 : u32 ensures KEY_MASK_26 == 0x3ffffff {
 proof {
 assert ( ( 1u32 << 26u32 ) - 1 == 0x3ffffff ) by ( bit_vector ) ;
 }
 ( 1 << KEY_BITS_26 ) - 1 }
+
 
 spec fn cslot(c: u32) -> u32 { c & 0x3ffffff }
 spec fn cval(c: u32) -> u8 { (c >> 26) as u8 }
@@ -32,18 +34,18 @@ spec fn cval(c: u32) -> u8 { (c >> 26) as u8 }
 spec fn slot_of(c: u32, lg: u8) -> int { (cslot(c) as int) % (pow2(lg as nat) as int) }
 spec fn low6(v: u8) -> u8 { v & 63 }
 
-fn pack_coupon(slot: u32, value: u8) -> (r: u32)
-  ensures cslot(r) == slot & 0x3ffffff, cval(r) == low6(value)
-{
-    proof {
-        assert(((((value as u32) << 26u32) | (slot & 0x3ffffffu32)) & 0x3ffffffu32) == (slot & 0x3ffffffu32)) by (bit_vector);
-        assert((((((value as u32) << 26u32) | (slot & 0x3ffffffu32)) >> 26u32) as u8) == (value & 63u8)) by (bit_vector);
-    }
-    ((value as u32) << KEY_BITS_26) | (slot & KEY_MASK_26)
+fn pack_coupon ( slot : u32 , value : u8 ) -> ( r : u32 ) ensures cslot ( r ) == slot & 0x3ffffff , cval ( r ) == low6 ( value ) {
+proof {
+assert ( ( ( ( ( value as u32 ) << 26u32 ) | ( slot & 0x3ffffffu32 ) ) & 0x3ffffffu32 ) == ( slot & 0x3ffffffu32 ) ) by ( bit_vector ) ;
+assert ( ( ( ( ( ( value as u32 ) << 26u32 ) | ( slot & 0x3ffffffu32 ) ) >> 26u32 ) as u8 ) == ( value & 63u8 ) ) by ( bit_vector ) ;
 }
+( ( value as u32 ) << KEY_BITS_26 ) | ( slot & KEY_MASK_26 ) }
+
 
 #[derive(Clone, Copy, PartialEq, Eq, Structural)]
-enum HllType { Hll4, Hll6, Hll8, }
+enum HllType {
+Hll4 , Hll6 , Hll8 , }
+
 
 // ================= the abstract view =================
 spec fn max8(a: u8, b: u8) -> u8 { if a >= b { a } else { b } }
@@ -263,12 +265,12 @@ impl Clone for Array8 {
 }
 
 enum Mode {
-    List { list: List, hll_type: HllType },
-    Set { set: HashSet, hll_type: HllType },
-    Array4(Array4),
-    Array6(Array6),
-    Array8(Array8),
-}
+List {
+list : List , hll_type : HllType }
+, Set {
+set : HashSet , hll_type : HllType }
+, Array4 ( Array4 ) , Array6 ( Array6 ) , Array8 ( Array8 ) , }
+
 spec fn mode_ooo(m: &Mode) -> bool { match m { Mode::Array4(a) => a.ooo(), Mode::Array6(a) => a.ooo(), Mode::Array8(a) => a.ooo(), _ => false } }
 spec fn mode_regs(m: &Mode) -> Seq<u8> { match m { Mode::Array4(a) => a.regs(), Mode::Array6(a) => a.regs(), Mode::Array8(a) => a.regs(), _ => Seq::empty() } }
 spec fn mode_lg(m: &Mode) -> u8 { match m { Mode::Array4(a) => a.lg(), Mode::Array6(a) => a.lg(), Mode::Array8(a) => a.lg(), _ => 0 } }
@@ -279,207 +281,213 @@ spec fn mode_awf(m: &Mode) -> bool { match m { Mode::Array4(a) => a.awf(), Mode:
 
 // ================= hll/union.rs free functions (real code + overlay) =================
 
-fn get_array_hip_accum(mode: &Mode) -> (r: f64)
-  requires mode_is_array(mode)
-  ensures r == mode_hip(mode)
-{
-    match mode {
-        Mode::Array8(src) => src.hip_accum(),
-        Mode::Array6(src) => src.hip_accum(),
-        Mode::Array4(src) => src.hip_accum(),
-        Mode::List { .. } | Mode::Set { .. } => {
-            unreachable!();
-        }
-    }
+fn get_array_hip_accum ( mode : & Mode ) -> ( r : f64 ) requires mode_is_array ( mode ) ensures r == mode_hip ( mode ) {
+match mode {
+Mode :: Array8 ( src ) => src . hip_accum ( ) , Mode :: Array6 ( src ) => src . hip_accum ( ) , Mode :: Array4 ( src ) => src . hip_accum ( ) , Mode :: List {
+.. }
+| Mode :: Set {
+.. }
+=> {
+unreachable! ( ) ;
+}
+}
 }
 
-fn merge_array46_same_lgk(dst: &mut Array8, num_registers: usize, get_value: impl Fn(u32) -> u8, Ghost(src): Ghost<Seq<u8> >)
-  requires old(dst).shape(), num_registers == old(dst).regs().len(), num_registers == src.len(),
-    forall|s: u32| s < num_registers ==> #[trigger] get_value.requires((s,)),
-    forall|s: u32, v: u8| s < num_registers && #[trigger] get_value.ensures((s,), v) ==> v == src[s as int],
-  ensures final(dst).wf(), final(dst).lg() == old(dst).lg(),
-    /*@C03.same_lgk.regs*/ final(dst).regs() == pmax(old(dst).regs(), src),
-    /*@C03.flagflow.merged*/ final(dst).ooo(),
-{
-    proof { lemma_k(dst.lg()); }
-    for slot in 0..num_registers
-      invariant dst.shape(), dst.lg() == old(dst).lg(), num_registers == dst.regs().len(), num_registers == src.len(), num_registers <= 0x20_0000,
-        forall|s: u32| s < num_registers ==> #[trigger] get_value.requires((s,)),
-        forall|s: u32, v: u8| s < num_registers && #[trigger] get_value.ensures((s,), v) ==> v == src[s as int],
-        /*@C03.same_lgk.regs*/ forall|j: int| 0 <= j < num_registers ==> #[trigger] dst.regs()[j] == (if j < slot { max8(old(dst).regs()[j], src[j]) } else { old(dst).regs()[j] }),
-    {
-        let val = get_value(slot as u32);
-        let current = dst.values()[slot];
-        if val > current {
-            dst.set_register(slot, val);
-        }
-    }
-    dst.rebuild_estimator_from_registers();
-    proof { assert(dst.regs() =~= pmax(old(dst).regs(), src)); }
+
+fn merge_array46_same_lgk ( dst : & mut Array8 , num_registers : usize , get_value : impl Fn ( u32 ) -> u8 , Ghost ( src ) : Ghost < Seq < u8 > > ) requires old ( dst ) . shape ( ) , num_registers == old ( dst ) . regs ( ) . len ( ) , num_registers == src . len ( ) , forall | s : u32 | s < num_registers ==> # [ trigger ] get_value . requires ( ( s , ) ) , forall | s : u32 , v : u8 | s < num_registers && # [ trigger ] get_value . ensures ( ( s , ) , v ) ==> v == src [ s as int ] , ensures final ( dst ) . wf ( ) , final ( dst ) . lg ( ) == old ( dst ) . lg ( ) ,
+/*@C03.same_lgk.regs*/ final ( dst ) . regs ( ) == pmax ( old ( dst ) . regs ( ) , src ) ,
+/*@C03.flagflow.merged*/ final ( dst ) . ooo ( ) , {
+proof {
+lemma_k ( dst . lg ( ) ) ;
+}
+for slot in 0 .. num_registers invariant dst . shape ( ) , dst . lg ( ) == old ( dst ) . lg ( ) , num_registers == dst . regs ( ) . len ( ) , num_registers == src . len ( ) , num_registers <= 0x20_0000 , forall | s : u32 | s < num_registers ==> # [ trigger ] get_value . requires ( ( s , ) ) , forall | s : u32 , v : u8 | s < num_registers && # [ trigger ] get_value . ensures ( ( s , ) , v ) ==> v == src [ s as int ] ,
+/*@C03.same_lgk.regs*/ forall | j : int | 0 <= j < num_registers ==> # [ trigger ] dst . regs ( ) [ j ] == ( if j < slot {
+max8 ( old ( dst ) . regs ( ) [ j ] , src [ j ] ) }
+else {
+old ( dst ) . regs ( ) [ j ] }
+) , {
+let val = get_value ( slot as u32 ) ;
+let current = dst . values ( ) [ slot ] ;
+if val > current {
+dst . set_register ( slot , val ) ;
+}
+}
+dst . rebuild_estimator_from_registers ( ) ;
+proof {
+assert ( dst . regs ( ) =~= pmax ( old ( dst ) . regs ( ) , src ) ) ;
+}
 }
 
-fn merge_array_same_lgk(dst: &mut Array8, src_mode: &Mode)
-  requires old(dst).shape(), mode_awf(src_mode), mode_lg(src_mode) == old(dst).lg()
-  ensures final(dst).wf(), final(dst).lg() == old(dst).lg(),
-    /*@C03.same_lgk.regs*/ final(dst).regs() == pmax(old(dst).regs(), mode_regs(src_mode)),
-    /*@C03.flagflow.merged*/ final(dst).ooo(),
-{
-    match src_mode {
-        Mode::Array8(src) => {
-            dst.merge_array_same_lgk(src.values());
-        }
-        Mode::Array6(src) => {
-            merge_array46_same_lgk(dst, src.num_registers(), |slot: u32| -> (r: u8) requires src.awf(), slot < src.regs().len() ensures r == src.regs()[slot as int] { src.get(slot) }, Ghost(src.regs()));
-        }
-        Mode::Array4(src) => {
-            merge_array46_same_lgk(dst, src.num_registers(), |slot: u32| -> (r: u8) requires src.awf(), slot < src.regs().len() ensures r == src.regs()[slot as int] { src.get(slot) }, Ghost(src.regs()));
-        }
-        _ => {
-            unreachable!()
-        }
-    }
+
+fn merge_array_same_lgk ( dst : & mut Array8 , src_mode : & Mode ) requires old ( dst ) . shape ( ) , mode_awf ( src_mode ) , mode_lg ( src_mode ) == old ( dst ) . lg ( ) ensures final ( dst ) . wf ( ) , final ( dst ) . lg ( ) == old ( dst ) . lg ( ) ,
+/*@C03.same_lgk.regs*/ final ( dst ) . regs ( ) == pmax ( old ( dst ) . regs ( ) , mode_regs ( src_mode ) ) ,
+/*@C03.flagflow.merged*/ final ( dst ) . ooo ( ) , {
+match src_mode {
+Mode :: Array8 ( src ) => {
+dst . merge_array_same_lgk ( src . values ( ) ) ;
+}
+Mode :: Array6 ( src ) => {
+merge_array46_same_lgk ( dst , src . num_registers ( ) , | slot : u32 | -> ( r : u8 ) requires src . awf ( ) , slot < src . regs ( ) . len ( ) ensures r == src . regs ( ) [ slot as int ] {
+src . get ( slot ) }
+, Ghost ( src . regs ( ) ) ) ;
+}
+Mode :: Array4 ( src ) => {
+merge_array46_same_lgk ( dst , src . num_registers ( ) , | slot : u32 | -> ( r : u8 ) requires src . awf ( ) , slot < src . regs ( ) . len ( ) ensures r == src . regs ( ) [ slot as int ] {
+src . get ( slot ) }
+, Ghost ( src . regs ( ) ) ) ;
+}
+_ => {
+unreachable! ( ) }
+}
 }
 
-fn merge_array46_with_downsample(
-    dst: &mut Array8,
-    dst_lg_k: u8,
-    num_registers: usize,
-    get_value: impl Fn(u32) -> u8,
-    Ghost(src): Ghost<Seq<u8> >,
-)
-  requires old(dst).shape(), old(dst).lg() == dst_lg_k, num_registers == src.len(), num_registers <= 0x20_0000,
-    forall|s: u32| s < num_registers ==> #[trigger] get_value.requires((s,)),
-    forall|s: u32, v: u8| s < num_registers && #[trigger] get_value.ensures((s,), v) ==> v == src[s as int],
-  ensures final(dst).wf(), final(dst).lg() == old(dst).lg(),
-    /*@C03.downsample.regs*/ final(dst).regs() == pmax(old(dst).regs(), fold(src, dst_lg_k)),
-    /*@C03.flagflow.merged*/ final(dst).ooo(),
-{
-    proof { lemma_k(dst_lg_k); }
-    let dst_mask = (1 << dst_lg_k) - 1;
-    for src_slot in 0..num_registers
-      invariant dst.shape(), dst.lg() == dst_lg_k, dst.regs().len() == old(dst).regs().len(), dst_mask == ((1u32 << dst_lg_k) - 1) as u32,
-        num_registers == src.len(), num_registers <= 0x20_0000,
-        forall|s: u32| s < num_registers ==> #[trigger] get_value.requires((s,)),
-        forall|s: u32, v: u8| s < num_registers && #[trigger] get_value.ensures((s,), v) ==> v == src[s as int],
-        /*@C03.downsample.regs*/ forall|i: int| 0 <= i < dst.regs().len() ==> #[trigger] dst.regs()[i] == max8(old(dst).regs()[i], foldmax(src, pow2(dst_lg_k as nat) as int, i, src_slot as int)),
-    {
-        let val = get_value(src_slot as u32);
-        proof { lemma_mask(src_slot as u32, dst_lg_k); }
-        if val > 0 {
-            let dst_slot = (src_slot as u32 & dst_mask) as usize;
-            let current = dst.values()[dst_slot];
-            if val > current {
-                dst.set_register(dst_slot, val);
-            }
-        }
-    }
-    dst.rebuild_estimator_from_registers();
-    proof { assert(dst.regs() =~= pmax(old(dst).regs(), fold(src, dst_lg_k))); }
+
+fn merge_array46_with_downsample ( dst : & mut Array8 , dst_lg_k : u8 , num_registers : usize , get_value : impl Fn ( u32 ) -> u8 , Ghost ( src ) : Ghost < Seq < u8 > > , ) requires old ( dst ) . shape ( ) , old ( dst ) . lg ( ) == dst_lg_k , num_registers == src . len ( ) , num_registers <= 0x20_0000 , forall | s : u32 | s < num_registers ==> # [ trigger ] get_value . requires ( ( s , ) ) , forall | s : u32 , v : u8 | s < num_registers && # [ trigger ] get_value . ensures ( ( s , ) , v ) ==> v == src [ s as int ] , ensures final ( dst ) . wf ( ) , final ( dst ) . lg ( ) == old ( dst ) . lg ( ) ,
+/*@C03.downsample.regs*/ final ( dst ) . regs ( ) == pmax ( old ( dst ) . regs ( ) , fold ( src , dst_lg_k ) ) ,
+/*@C03.flagflow.merged*/ final ( dst ) . ooo ( ) , {
+proof {
+lemma_k ( dst_lg_k ) ;
+}
+let dst_mask = ( 1 << dst_lg_k ) - 1 ;
+for src_slot in 0 .. num_registers invariant dst . shape ( ) , dst . lg ( ) == dst_lg_k , dst . regs ( ) . len ( ) == old ( dst ) . regs ( ) . len ( ) , dst_mask == ( ( 1u32 << dst_lg_k ) - 1 ) as u32 , num_registers == src . len ( ) , num_registers <= 0x20_0000 , forall | s : u32 | s < num_registers ==> # [ trigger ] get_value . requires ( ( s , ) ) , forall | s : u32 , v : u8 | s < num_registers && # [ trigger ] get_value . ensures ( ( s , ) , v ) ==> v == src [ s as int ] ,
+/*@C03.downsample.regs*/ forall | i : int | 0 <= i < dst . regs ( ) . len ( ) ==> # [ trigger ] dst . regs ( ) [ i ] == max8 ( old ( dst ) . regs ( ) [ i ] , foldmax ( src , pow2 ( dst_lg_k as nat ) as int , i , src_slot as int ) ) , {
+let val = get_value ( src_slot as u32 ) ;
+proof {
+lemma_mask ( src_slot as u32 , dst_lg_k ) ;
+}
+if val > 0 {
+let dst_slot = ( src_slot as u32 & dst_mask ) as usize ;
+let current = dst . values ( ) [ dst_slot ] ;
+if val > current {
+dst . set_register ( dst_slot , val ) ;
+}
+}
+}
+dst . rebuild_estimator_from_registers ( ) ;
+proof {
+assert ( dst . regs ( ) =~= pmax ( old ( dst ) . regs ( ) , fold ( src , dst_lg_k ) ) ) ;
+}
 }
 
-fn merge_array_with_downsample(dst: &mut Array8, dst_lg_k: u8, src_mode: &Mode, src_lg_k: u8)
-  requires old(dst).shape(), old(dst).lg() == dst_lg_k, mode_awf(src_mode), mode_lg(src_mode) == src_lg_k, src_lg_k > dst_lg_k
-  ensures final(dst).wf(), final(dst).lg() == old(dst).lg(),
-    /*@C03.downsample.regs*/ final(dst).regs() == pmax(old(dst).regs(), fold(mode_regs(src_mode), dst_lg_k)),
-    /*@C03.flagflow.merged*/ final(dst).ooo(),
-{
-    proof { lemma_k(src_lg_k); }
-    assert!(src_lg_k > dst_lg_k);
 
-    match src_mode {
-        Mode::Array8(src) => {
-            dst.merge_array_with_downsample(src.values(), src_lg_k);
-        }
-        Mode::Array6(src) => {
-            merge_array46_with_downsample(dst, dst_lg_k, src.num_registers(), |slot: u32| -> (r: u8) requires src.awf(), slot < src.regs().len() ensures r == src.regs()[slot as int] { src.get(slot) }, Ghost(src.regs()));
-        }
-        Mode::Array4(src) => {
-            merge_array46_with_downsample(dst, dst_lg_k, src.num_registers(), |slot: u32| -> (r: u8) requires src.awf(), slot < src.regs().len() ensures r == src.regs()[slot as int] { src.get(slot) }, Ghost(src.regs()));
-        }
-        _ => unreachable!(),
-    }
+fn merge_array_with_downsample ( dst : & mut Array8 , dst_lg_k : u8 , src_mode : & Mode , src_lg_k : u8 ) requires old ( dst ) . shape ( ) , old ( dst ) . lg ( ) == dst_lg_k , mode_awf ( src_mode ) , mode_lg ( src_mode ) == src_lg_k , src_lg_k > dst_lg_k ensures final ( dst ) . wf ( ) , final ( dst ) . lg ( ) == old ( dst ) . lg ( ) ,
+/*@C03.downsample.regs*/ final ( dst ) . regs ( ) == pmax ( old ( dst ) . regs ( ) , fold ( mode_regs ( src_mode ) , dst_lg_k ) ) ,
+/*@C03.flagflow.merged*/ final ( dst ) . ooo ( ) , {
+proof {
+lemma_k ( src_lg_k ) ;
+}
+assert! ( src_lg_k > dst_lg_k ) ;
+match src_mode {
+Mode :: Array8 ( src ) => {
+dst . merge_array_with_downsample ( src . values ( ) , src_lg_k ) ;
+}
+Mode :: Array6 ( src ) => {
+merge_array46_with_downsample ( dst , dst_lg_k , src . num_registers ( ) , | slot : u32 | -> ( r : u8 ) requires src . awf ( ) , slot < src . regs ( ) . len ( ) ensures r == src . regs ( ) [ slot as int ] {
+src . get ( slot ) }
+, Ghost ( src . regs ( ) ) ) ;
+}
+Mode :: Array4 ( src ) => {
+merge_array46_with_downsample ( dst , dst_lg_k , src . num_registers ( ) , | slot : u32 | -> ( r : u8 ) requires src . awf ( ) , slot < src . regs ( ) . len ( ) ensures r == src . regs ( ) [ slot as int ] {
+src . get ( slot ) }
+, Ghost ( src . regs ( ) ) ) ;
+}
+_ => unreachable! ( ) , }
 }
 
-fn merge_array_into_array8(dst_array8: &mut Array8, dst_lg_k: u8, src_mode: &Mode, src_lg_k: u8)
-  requires old(dst_array8).shape(), old(dst_array8).lg() == dst_lg_k, mode_awf(src_mode), mode_lg(src_mode) == src_lg_k, src_lg_k >= dst_lg_k
-  ensures final(dst_array8).wf(), final(dst_array8).lg() == old(dst_array8).lg(),
-    /*@C03.merge.regs*/ final(dst_array8).regs() == pmax(old(dst_array8).regs(), fold(mode_regs(src_mode), dst_lg_k)),
-    /*@C03.flagflow.merged*/ final(dst_array8).ooo(),
-{
-    assert!(src_lg_k >= dst_lg_k);
 
-    if dst_lg_k == src_lg_k {
-        proof { lemma_fold_id(mode_regs(src_mode), dst_lg_k); }
-        merge_array_same_lgk(dst_array8, src_mode);
-    } else {
-        merge_array_with_downsample(dst_array8, dst_lg_k, src_mode, src_lg_k);
-    }
+fn merge_array_into_array8 ( dst_array8 : & mut Array8 , dst_lg_k : u8 , src_mode : & Mode , src_lg_k : u8 ) requires old ( dst_array8 ) . shape ( ) , old ( dst_array8 ) . lg ( ) == dst_lg_k , mode_awf ( src_mode ) , mode_lg ( src_mode ) == src_lg_k , src_lg_k >= dst_lg_k ensures final ( dst_array8 ) . wf ( ) , final ( dst_array8 ) . lg ( ) == old ( dst_array8 ) . lg ( ) ,
+/*@C03.merge.regs*/ final ( dst_array8 ) . regs ( ) == pmax ( old ( dst_array8 ) . regs ( ) , fold ( mode_regs ( src_mode ) , dst_lg_k ) ) ,
+/*@C03.flagflow.merged*/ final ( dst_array8 ) . ooo ( ) , {
+assert! ( src_lg_k >= dst_lg_k ) ;
+if dst_lg_k == src_lg_k {
+proof {
+lemma_fold_id ( mode_regs ( src_mode ) , dst_lg_k ) ;
+}
+merge_array_same_lgk ( dst_array8 , src_mode ) ;
+}
+else {
+merge_array_with_downsample ( dst_array8 , dst_lg_k , src_mode , src_lg_k ) ;
+}
 }
 
-fn copy_array46_via_coupons(dst: &mut Array8, num_registers: usize, get_value: impl Fn(u32) -> u8, Ghost(src): Ghost<Seq<u8> >)
-  requires old(dst).wf(), num_registers == old(dst).regs().len(), num_registers == src.len(), bounded(src),
-    forall|s: u32| s < num_registers ==> #[trigger] get_value.requires((s,)),
-    forall|s: u32, v: u8| s < num_registers && #[trigger] get_value.ensures((s,), v) ==> v == src[s as int],
-  ensures final(dst).wf(), final(dst).lg() == old(dst).lg(), final(dst).ooo() == old(dst).ooo(),
-    /*@C03.copy46.regs*/ final(dst).regs() == pmax(old(dst).regs(), src),
-{
-    proof { lemma_k(dst.lg()); }
-    for slot in 0..num_registers
-      invariant dst.wf(), dst.lg() == old(dst).lg(), dst.ooo() == old(dst).ooo(), num_registers == dst.regs().len(), num_registers == src.len(), num_registers <= 0x20_0000, bounded(src),
-        forall|s: u32| s < num_registers ==> #[trigger] get_value.requires((s,)),
-        forall|s: u32, v: u8| s < num_registers && #[trigger] get_value.ensures((s,), v) ==> v == src[s as int],
-        /*@C03.copy46.regs*/ forall|j: int| 0 <= j < num_registers ==> #[trigger] dst.regs()[j] == (if j < slot { max8(old(dst).regs()[j], src[j]) } else { old(dst).regs()[j] }),
-    {
-        let val = get_value(slot as u32);
-        if val > 0 {
-            let coupon = pack_coupon(slot as u32, val);
-            proof { lemma_slot_roundtrip(slot as u32, dst.lg(), coupon); lemma_low6(val); }
-            dst.update(coupon);
-        }
-    }
-    proof { assert(dst.regs() =~= pmax(old(dst).regs(), src)); }
+
+fn copy_array46_via_coupons ( dst : & mut Array8 , num_registers : usize , get_value : impl Fn ( u32 ) -> u8 , Ghost ( src ) : Ghost < Seq < u8 > > ) requires old ( dst ) . wf ( ) , num_registers == old ( dst ) . regs ( ) . len ( ) , num_registers == src . len ( ) , bounded ( src ) , forall | s : u32 | s < num_registers ==> # [ trigger ] get_value . requires ( ( s , ) ) , forall | s : u32 , v : u8 | s < num_registers && # [ trigger ] get_value . ensures ( ( s , ) , v ) ==> v == src [ s as int ] , ensures final ( dst ) . wf ( ) , final ( dst ) . lg ( ) == old ( dst ) . lg ( ) , final ( dst ) . ooo ( ) == old ( dst ) . ooo ( ) ,
+/*@C03.copy46.regs*/ final ( dst ) . regs ( ) == pmax ( old ( dst ) . regs ( ) , src ) , {
+proof {
+lemma_k ( dst . lg ( ) ) ;
 }
+for slot in 0 .. num_registers invariant dst . wf ( ) , dst . lg ( ) == old ( dst ) . lg ( ) , dst . ooo ( ) == old ( dst ) . ooo ( ) , num_registers == dst . regs ( ) . len ( ) , num_registers == src . len ( ) , num_registers <= 0x20_0000 , bounded ( src ) , forall | s : u32 | s < num_registers ==> # [ trigger ] get_value . requires ( ( s , ) ) , forall | s : u32 , v : u8 | s < num_registers && # [ trigger ] get_value . ensures ( ( s , ) , v ) ==> v == src [ s as int ] ,
+/*@C03.copy46.regs*/ forall | j : int | 0 <= j < num_registers ==> # [ trigger ] dst . regs ( ) [ j ] == ( if j < slot {
+max8 ( old ( dst ) . regs ( ) [ j ] , src [ j ] ) }
+else {
+old ( dst ) . regs ( ) [ j ] }
+) , {
+let val = get_value ( slot as u32 ) ;
+if val > 0 {
+let coupon = pack_coupon ( slot as u32 , val ) ;
+proof {
+lemma_slot_roundtrip ( slot as u32 , dst . lg ( ) , coupon ) ;
+lemma_low6 ( val ) ;
+}
+dst . update ( coupon ) ;
+}
+}
+proof {
+assert ( dst . regs ( ) =~= pmax ( old ( dst ) . regs ( ) , src ) ) ;
+}
+}
+
 
 spec fn min8(a: u8, b: u8) -> u8 { if a <= b { a } else { b } }
 
-fn copy_or_downsample(src_mode: &Mode, src_lg_k: u8, tgt_lg_k: u8) -> (result: Array8)
-  requires mode_awf(src_mode), mode_lg(src_mode) == src_lg_k, 4 <= tgt_lg_k <= 21
-  ensures result.wf(), result.lg() == min8(src_lg_k, tgt_lg_k),
-    /*@C03.copy.regs*/ result.regs() == fold(mode_regs(src_mode), min8(src_lg_k, tgt_lg_k)),
-    /*@C03.flagflow*/ mode_ooo(src_mode) ==> result.ooo(),
-    /*@C03.flagflow.merged*/ src_lg_k > tgt_lg_k ==> result.ooo(),
-    /*@C03.copy.hip*/ src_lg_k <= tgt_lg_k ==> result.hip() == mode_hip(src_mode),
-{
-    if src_lg_k <= tgt_lg_k {
-        proof { lemma_k(src_lg_k); lemma_fold_id(mode_regs(src_mode), src_lg_k); lemma_pmax_zeros(mode_regs(src_mode)); }
-        let mut result = Array8::new(src_lg_k);
-        let src_hip = get_array_hip_accum(src_mode);
-
-        match src_mode {
-            Mode::Array8(src) => {
-                result.merge_array_same_lgk(src.values());
-            }
-            Mode::Array6(src) => {
-                copy_array46_via_coupons(&mut result, src.num_registers(), |slot: u32| -> (r: u8) requires src.awf(), slot < src.regs().len() ensures r == src.regs()[slot as int] { src.get(slot) }, Ghost(src.regs()));
-            }
-            Mode::Array4(src) => {
-                copy_array46_via_coupons(&mut result, src.num_registers(), |slot: u32| -> (r: u8) requires src.awf(), slot < src.regs().len() ensures r == src.regs()[slot as int] { src.get(slot) }, Ghost(src.regs()));
-            }
-            Mode::List { .. } | Mode::Set { .. } => {
-                unreachable!();
-            }
-        }
-
-        result.set_hip_accum(src_hip);
-        result
-    } else {
-        // Downsample from src to tgt
-        proof { lemma_k(tgt_lg_k); lemma_pmax_zeros(fold(mode_regs(src_mode), tgt_lg_k)); }
-        let mut result = Array8::new(tgt_lg_k);
-        merge_array_with_downsample(&mut result, tgt_lg_k, src_mode, src_lg_k);
-        result
-    }
+fn copy_or_downsample ( src_mode : & Mode , src_lg_k : u8 , tgt_lg_k : u8 ) -> ( result : Array8 ) requires mode_awf ( src_mode ) , mode_lg ( src_mode ) == src_lg_k , 4 <= tgt_lg_k <= 21 ensures result . wf ( ) , result . lg ( ) == min8 ( src_lg_k , tgt_lg_k ) ,
+/*@C03.copy.regs*/ result . regs ( ) == fold ( mode_regs ( src_mode ) , min8 ( src_lg_k , tgt_lg_k ) ) ,
+/*@C03.flagflow*/ mode_ooo ( src_mode ) ==> result . ooo ( ) ,
+/*@C03.flagflow.merged*/ src_lg_k > tgt_lg_k ==> result . ooo ( ) ,
+/*@C03.copy.hip*/ src_lg_k <= tgt_lg_k ==> result . hip ( ) == mode_hip ( src_mode ) , {
+if src_lg_k <= tgt_lg_k {
+proof {
+lemma_k ( src_lg_k ) ;
+lemma_fold_id ( mode_regs ( src_mode ) , src_lg_k ) ;
+lemma_pmax_zeros ( mode_regs ( src_mode ) ) ;
 }
+let mut result = Array8 :: new ( src_lg_k ) ;
+let src_hip = get_array_hip_accum ( src_mode ) ;
+match src_mode {
+Mode :: Array8 ( src ) => {
+result . merge_array_same_lgk ( src . values ( ) ) ;
+}
+Mode :: Array6 ( src ) => {
+copy_array46_via_coupons ( & mut result , src . num_registers ( ) , | slot : u32 | -> ( r : u8 ) requires src . awf ( ) , slot < src . regs ( ) . len ( ) ensures r == src . regs ( ) [ slot as int ] {
+src . get ( slot ) }
+, Ghost ( src . regs ( ) ) ) ;
+}
+Mode :: Array4 ( src ) => {
+copy_array46_via_coupons ( & mut result , src . num_registers ( ) , | slot : u32 | -> ( r : u8 ) requires src . awf ( ) , slot < src . regs ( ) . len ( ) ensures r == src . regs ( ) [ slot as int ] {
+src . get ( slot ) }
+, Ghost ( src . regs ( ) ) ) ;
+}
+Mode :: List {
+.. }
+| Mode :: Set {
+.. }
+=> {
+unreachable! ( ) ;
+}
+}
+result . rebuild_estimator_from_registers ( ) ;
+result . set_hip_accum ( src_hip ) ;
+result }
+else {
+proof {
+lemma_k ( tgt_lg_k ) ;
+lemma_pmax_zeros ( fold ( mode_regs ( src_mode ) , tgt_lg_k ) ) ;
+}
+let mut result = Array8 :: new ( tgt_lg_k ) ;
+merge_array_with_downsample ( & mut result , tgt_lg_k , src_mode , src_lg_k ) ;
+result }
+}
+
 
 spec fn conv_regs(r: Seq<u8>, t: HllType) -> Seq<u8> {
     match t {
@@ -561,45 +569,36 @@ proof fn lemma_coupon_merge_nonzero(old: Seq<u8>, s: Set<u32>, lg: u8, new: Seq<
 }
 
 struct HllSketch {
-    lg_config_k: u8,
-    mode: Mode,
-}
+lg_config_k : u8 , mode : Mode , }
+
 impl HllSketch {
-    fn from_mode(lg_config_k: u8, mode: Mode) -> (r: Self)
-      ensures r.lg_config_k == lg_config_k, r.mode == mode
-    {
-        Self { lg_config_k, mode }
-    }
+    fn from_mode ( lg_config_k : u8 , mode : Mode ) -> ( r : Self ) ensures r . lg_config_k == lg_config_k , r . mode == mode {
+Self {
+lg_config_k , mode }
+}
 
-    fn mode(&self) -> (r: &Mode)
-      ensures *r == self.mode
-    {
-        &self.mode
-    }
 
-    fn mode_mut(&mut self) -> (r: &mut Mode)
-      ensures *r == old(self).mode, final(self).mode == *final(r), final(self).lg_config_k == old(self).lg_config_k
-    {
-        &mut self.mode
-    }
+    fn mode ( & self ) -> ( r : & Mode ) ensures * r == self . mode {
+& self . mode }
 
-    fn target_type(&self) -> (r: HllType)
-      ensures r == sk_type(&self.mode)
-    {
-        match &self.mode {
-            Mode::List { hll_type, .. } => *hll_type,
-            Mode::Set { hll_type, .. } => *hll_type,
-            Mode::Array4(_) => HllType::Hll4,
-            Mode::Array6(_) => HllType::Hll6,
-            Mode::Array8(_) => HllType::Hll8,
-        }
-    }
 
-    fn lg_config_k(&self) -> (r: u8)
-      ensures r == self.lg_config_k
-    {
-        self.lg_config_k
-    }
+    fn mode_mut ( & mut self ) -> ( r : & mut Mode ) ensures * r == old ( self ) . mode , final ( self ) . mode == * final ( r ) , final ( self ) . lg_config_k == old ( self ) . lg_config_k {
+& mut self . mode }
+
+
+    fn target_type ( & self ) -> ( r : HllType ) ensures r == sk_type ( & self . mode ) {
+match & self . mode {
+Mode :: List {
+hll_type , .. }
+=> * hll_type , Mode :: Set {
+hll_type , .. }
+=> * hll_type , Mode :: Array4 ( _ ) => HllType :: Hll4 , Mode :: Array6 ( _ ) => HllType :: Hll6 , Mode :: Array8 ( _ ) => HllType :: Hll8 , }
+}
+
+
+    fn lg_config_k ( & self ) -> ( r : u8 ) ensures r == self . lg_config_k {
+self . lg_config_k }
+
 
     // empty = no coupon retained / every register zero
     #[verifier::external_body]
@@ -617,72 +616,82 @@ impl Clone for HllSketch {
     #[verifier::external_body] fn clone(&self) -> (r: Self) ensures r == *self { unimplemented!() }
 }
 
-fn convert_array8_to_type(src: &Array8, lg_config_k: u8, target_type: HllType) -> (result: HllSketch)
-  requires src.shape(), src.lg() == lg_config_k
-  ensures result.lg_config_k == lg_config_k, mode_awf(&result.mode), mode_lg(&result.mode) == lg_config_k, sk_type(&result.mode) == target_type,
-    /*@C03.convert.regs*/ mode_regs(&result.mode) == conv_regs(src.regs(), target_type),
-    /*@C03.convert.regs*/ bounded(src.regs()) ==> mode_regs(&result.mode) == src.regs(),
-    /*@C03.convert.flag*/ mode_ooo(&result.mode) == src.ooo(),
-{
-    proof { lemma_k(lg_config_k); if bounded(src.regs()) { lemma_conv_bounded(src.regs(), target_type); } }
-    match target_type {
-        HllType::Hll8 => HllSketch::from_mode(lg_config_k, Mode::Array8(src.clone())),
-        HllType::Hll6 => {
-            let mut array6 = Array6::new(lg_config_k);
-            for slot in 0..src.num_registers()
-              invariant src.shape(), src.lg() == lg_config_k, 4 <= lg_config_k <= 21, array6.wf(), array6.lg() == lg_config_k, !array6.ooo(), src.regs().len() <= 0x20_0000,
-                /*@C03.convert.regs*/ forall|j: int| 0 <= j < src.regs().len() ==> #[trigger] array6.regs()[j] == (if j < slot { clamp63(src.regs()[j]) } else { 0u8 }),
-            {
-                let val = src.values()[slot];
-                if val > 0 {
-                    let clamped_val = val.min(63);
-                    let coupon = pack_coupon(slot as u32, clamped_val);
-                    proof { lemma_slot_roundtrip(slot as u32, lg_config_k, coupon); lemma_low6(val); }
-                    array6.update(coupon);
-                }
-            }
-
-            let src_est = src.estimate();
-            let arr6_est = array6.estimate();
-            if src_est > arr6_est {
-                array6.set_hip_accum(src_est);
-            }
-            proof { assert(array6.regs() =~= conv_regs(src.regs(), target_type)); }
-
-            HllSketch::from_mode(lg_config_k, Mode::Array6(array6))
-        }
-        HllType::Hll4 => {
-            let mut array4 = Array4::new(lg_config_k);
-            for slot in 0..src.num_registers()
-              invariant src.shape(), src.lg() == lg_config_k, 4 <= lg_config_k <= 21, array4.wf(), array4.lg() == lg_config_k, !array4.ooo(), src.regs().len() <= 0x20_0000,
-                /*@C03.convert.regs*/ forall|j: int| 0 <= j < src.regs().len() ==> #[trigger] array4.regs()[j] == (if j < slot { low6(src.regs()[j]) } else { 0u8 }),
-            {
-                let val = src.values()[slot];
-                proof { lemma_low6(val); }
-                if val > 0 {
-                    let coupon = pack_coupon(slot as u32, val);
-                    proof { lemma_slot_roundtrip(slot as u32, lg_config_k, coupon); }
-                    array4.update(coupon);
-                }
-            }
-
-            let src_est = src.estimate();
-            let arr4_est = array4.estimate();
-            if src_est > arr4_est {
-                array4.set_hip_accum(src_est);
-            }
-            proof { assert(array4.regs() =~= conv_regs(src.regs(), target_type)); }
-
-            HllSketch::from_mode(lg_config_k, Mode::Array4(array4))
-        }
-    }
+fn convert_array8_to_type ( src : & Array8 , lg_config_k : u8 , target_type : HllType ) -> ( result : HllSketch ) requires src . shape ( ) , src . lg ( ) == lg_config_k ensures result . lg_config_k == lg_config_k , mode_awf ( & result . mode ) , mode_lg ( & result . mode ) == lg_config_k , sk_type ( & result . mode ) == target_type ,
+/*@C03.convert.regs*/ mode_regs ( & result . mode ) == conv_regs ( src . regs ( ) , target_type ) ,
+/*@C03.convert.regs*/ bounded ( src . regs ( ) ) ==> mode_regs ( & result . mode ) == src . regs ( ) ,
+/*@C03.convert.flag*/ mode_ooo ( & result . mode ) == src . ooo ( ) , {
+proof {
+lemma_k ( lg_config_k ) ;
+if bounded ( src . regs ( ) ) {
+lemma_conv_bounded ( src . regs ( ) , target_type ) ;
 }
+}
+match target_type {
+HllType :: Hll8 => HllSketch :: from_mode ( lg_config_k , Mode :: Array8 ( src . clone ( ) ) ) , HllType :: Hll6 => {
+let mut array6 = Array6 :: new ( lg_config_k ) ;
+for slot in 0 .. src . num_registers ( ) invariant src . shape ( ) , src . lg ( ) == lg_config_k , 4 <= lg_config_k <= 21 , array6 . wf ( ) , array6 . lg ( ) == lg_config_k , ! array6 . ooo ( ) , src . regs ( ) . len ( ) <= 0x20_0000 ,
+/*@C03.convert.regs*/ forall | j : int | 0 <= j < src . regs ( ) . len ( ) ==> # [ trigger ] array6 . regs ( ) [ j ] == ( if j < slot {
+clamp63 ( src . regs ( ) [ j ] ) }
+else {
+0u8 }
+) , {
+let val = src . values ( ) [ slot ] ;
+if val > 0 {
+let clamped_val = val . min ( 63 ) ;
+let coupon = pack_coupon ( slot as u32 , clamped_val ) ;
+proof {
+lemma_slot_roundtrip ( slot as u32 , lg_config_k , coupon ) ;
+lemma_low6 ( val ) ;
+}
+array6 . update ( coupon ) ;
+}
+}
+let src_est = src . estimate ( ) ;
+let arr6_est = array6 . estimate ( ) ;
+if src_est > arr6_est {
+array6 . set_hip_accum ( src_est ) ;
+}
+proof {
+assert ( array6 . regs ( ) =~= conv_regs ( src . regs ( ) , target_type ) ) ;
+}
+HllSketch :: from_mode ( lg_config_k , Mode :: Array6 ( array6 ) ) }
+HllType :: Hll4 => {
+let mut array4 = Array4 :: new ( lg_config_k ) ;
+for slot in 0 .. src . num_registers ( ) invariant src . shape ( ) , src . lg ( ) == lg_config_k , 4 <= lg_config_k <= 21 , array4 . wf ( ) , array4 . lg ( ) == lg_config_k , ! array4 . ooo ( ) , src . regs ( ) . len ( ) <= 0x20_0000 ,
+/*@C03.convert.regs*/ forall | j : int | 0 <= j < src . regs ( ) . len ( ) ==> # [ trigger ] array4 . regs ( ) [ j ] == ( if j < slot {
+low6 ( src . regs ( ) [ j ] ) }
+else {
+0u8 }
+) , {
+let val = src . values ( ) [ slot ] ;
+proof {
+lemma_low6 ( val ) ;
+}
+if val > 0 {
+let coupon = pack_coupon ( slot as u32 , val ) ;
+proof {
+lemma_slot_roundtrip ( slot as u32 , lg_config_k , coupon ) ;
+}
+array4 . update ( coupon ) ;
+}
+}
+let src_est = src . estimate ( ) ;
+let arr4_est = array4 . estimate ( ) ;
+if src_est > arr4_est {
+array4 . set_hip_accum ( src_est ) ;
+}
+proof {
+assert ( array4 . regs ( ) =~= conv_regs ( src . regs ( ) , target_type ) ) ;
+}
+HllSketch :: from_mode ( lg_config_k , Mode :: Array4 ( array4 ) ) }
+}
+}
+
 
 // ================= HllUnion =================
 struct HllUnion {
-    lg_max_k: u8,
-    gadget: HllSketch,
-}
+lg_max_k : u8 , gadget : HllSketch , }
+
 // the gadget is always a Hll8 sketch: List/Set with target Hll8, or Array8 (never Array4/Array6)
 spec fn g_ok(m: &Mode, lg: u8) -> bool {
     match m {
@@ -716,253 +725,209 @@ fn merge_coupons_into_mode(dst: &mut Array8, src_mode: &Mode)
     coupon_merge(old(dst).regs(), mode_coupons(src_mode), old(dst).lg(), final(dst).regs()),
 { unimplemented!() }
 
-fn convert_coupon_mode_to_hll8(src_mode: &Mode, src_lg_k: u8) -> (r: HllSketch)
-  requires !mode_is_array(src_mode)
-  ensures r.lg_config_k == src_lg_k, !mode_is_array(&r.mode), sk_type(&r.mode) == HllType::Hll8,
-    /*@C03.sparse.copy*/ mode_coupons(&r.mode) == mode_coupons(src_mode),
-    (r.mode is List) == (src_mode is List),
-{
-    match src_mode {
-        Mode::List { list, .. } => HllSketch::from_mode(
-            src_lg_k,
-            Mode::List {
-                list: list.clone(),
-                hll_type: HllType::Hll8,
-            },
-        ),
-        Mode::Set { set, .. } => HllSketch::from_mode(
-            src_lg_k,
-            Mode::Set {
-                set: set.clone(),
-                hll_type: HllType::Hll8,
-            },
-        ),
-        _ => unreachable!(),
-    }
+fn convert_coupon_mode_to_hll8 ( src_mode : & Mode , src_lg_k : u8 ) -> ( r : HllSketch ) requires ! mode_is_array ( src_mode ) ensures r . lg_config_k == src_lg_k , ! mode_is_array ( & r . mode ) , sk_type ( & r . mode ) == HllType :: Hll8 ,
+/*@C03.sparse.copy*/ mode_coupons ( & r . mode ) == mode_coupons ( src_mode ) , ( r . mode is List ) == ( src_mode is List ) , {
+match src_mode {
+Mode :: List {
+list , .. }
+=> HllSketch :: from_mode ( src_lg_k , Mode :: List {
+list : list . clone ( ) , hll_type : HllType :: Hll8 , }
+, ) , Mode :: Set {
+set , .. }
+=> HllSketch :: from_mode ( src_lg_k , Mode :: Set {
+set : set . clone ( ) , hll_type : HllType :: Hll8 , }
+, ) , _ => unreachable! ( ) , }
 }
+
 
 impl HllUnion {
     spec fn uwf(&self) -> bool {
         4 <= self.lg_max_k <= 21 && 4 <= self.gadget.lg_config_k <= self.lg_max_k && g_ok(&self.gadget.mode, self.gadget.lg_config_k)
     }
 
-    fn update(&mut self, sketch: &HllSketch)
-      requires old(self).uwf(), sk_wf(sketch)
-      ensures final(self).uwf(), final(self).lg_max_k == old(self).lg_max_k,
-        /*@C03.update.empty*/ mode_empty(&sketch.mode) ==> *final(self) == *old(self),
-        !mode_empty(&sketch.mode) && mode_is_array(&sketch.mode) ==> (final(self).gadget.mode is Array8),
-        /*@C03.update.lgk*/ !mode_empty(&sketch.mode) && mode_is_array(&sketch.mode) ==> (final(self).gadget.lg_config_k == upd_lg(old(self), &sketch.mode)),
-        /*@C03.update.regs.copy*/ !mode_empty(&sketch.mode) && mode_is_array(&sketch.mode) ==> (mode_empty(&old(self).gadget.mode) ==> mode_regs(&final(self).gadget.mode) == fold(mode_regs(&sketch.mode), upd_lg(old(self), &sketch.mode))),
-        /*@C03.update.regs.merge*/ !mode_empty(&sketch.mode) && mode_is_array(&sketch.mode) ==> (!mode_empty(&old(self).gadget.mode) && old(self).gadget.mode is Array8 ==> mode_regs(&final(self).gadget.mode) == pmax(fold(mode_regs(&old(self).gadget.mode), upd_lg(old(self), &sketch.mode)), fold(mode_regs(&sketch.mode), upd_lg(old(self), &sketch.mode)))),
-        /*@C03.update.regs.promote*/ !mode_empty(&sketch.mode) && mode_is_array(&sketch.mode) ==> (!mode_empty(&old(self).gadget.mode) && !(old(self).gadget.mode is Array8) ==> coupon_merge(fold(mode_regs(&sketch.mode), upd_lg(old(self), &sketch.mode)), mode_coupons(&old(self).gadget.mode), upd_lg(old(self), &sketch.mode), mode_regs(&final(self).gadget.mode))),
-        /*@C03.flagflow.update*/ !mode_empty(&sketch.mode) && mode_is_array(&sketch.mode) ==> (mode_ooo(&sketch.mode) ==> mode_ooo(&final(self).gadget.mode)),
-        /*@C03.flagflow.merged*/ !mode_empty(&sketch.mode) && mode_is_array(&sketch.mode) ==> ((!mode_empty(&old(self).gadget.mode) && old(self).gadget.mode is Array8) || mode_lg(&sketch.mode) > old(self).lg_max_k ==> mode_ooo(&final(self).gadget.mode)),
-        /*@C03.update.sparse*/ !mode_empty(&sketch.mode) && !mode_is_array(&sketch.mode) ==> sparse_update_post(old(self), sketch, final(self)),
-        /*@C03.update.nonempty*/ !mode_empty(&sketch.mode) ==> !mode_empty(&final(self).gadget.mode),
-    {
-        if sketch.is_empty() {
-            return;
-        }
+    fn update ( & mut self , sketch : & HllSketch ) requires old ( self ) . uwf ( ) , sk_wf ( sketch ) ensures final ( self ) . uwf ( ) , final ( self ) . lg_max_k == old ( self ) . lg_max_k ,
+/*@C03.update.empty*/ mode_empty ( & sketch . mode ) ==> * final ( self ) == * old ( self ) , ! mode_empty ( & sketch . mode ) && mode_is_array ( & sketch . mode ) ==> ( final ( self ) . gadget . mode is Array8 ) ,
+/*@C03.update.lgk*/ ! mode_empty ( & sketch . mode ) && mode_is_array ( & sketch . mode ) ==> ( final ( self ) . gadget . lg_config_k == upd_lg ( old ( self ) , & sketch . mode ) ) ,
+/*@C03.update.regs.copy*/ ! mode_empty ( & sketch . mode ) && mode_is_array ( & sketch . mode ) ==> ( mode_empty ( & old ( self ) . gadget . mode ) ==> mode_regs ( & final ( self ) . gadget . mode ) == fold ( mode_regs ( & sketch . mode ) , upd_lg ( old ( self ) , & sketch . mode ) ) ) ,
+/*@C03.update.regs.merge*/ ! mode_empty ( & sketch . mode ) && mode_is_array ( & sketch . mode ) ==> ( ! mode_empty ( & old ( self ) . gadget . mode ) && old ( self ) . gadget . mode is Array8 ==> mode_regs ( & final ( self ) . gadget . mode ) == pmax ( fold ( mode_regs ( & old ( self ) . gadget . mode ) , upd_lg ( old ( self ) , & sketch . mode ) ) , fold ( mode_regs ( & sketch . mode ) , upd_lg ( old ( self ) , & sketch . mode ) ) ) ) ,
+/*@C03.update.regs.promote*/ ! mode_empty ( & sketch . mode ) && mode_is_array ( & sketch . mode ) ==> ( ! mode_empty ( & old ( self ) . gadget . mode ) && ! ( old ( self ) . gadget . mode is Array8 ) ==> coupon_merge ( fold ( mode_regs ( & sketch . mode ) , upd_lg ( old ( self ) , & sketch . mode ) ) , mode_coupons ( & old ( self ) . gadget . mode ) , upd_lg ( old ( self ) , & sketch . mode ) , mode_regs ( & final ( self ) . gadget . mode ) ) ) ,
+/*@C03.flagflow.update*/ ! mode_empty ( & sketch . mode ) && mode_is_array ( & sketch . mode ) ==> ( mode_ooo ( & sketch . mode ) ==> mode_ooo ( & final ( self ) . gadget . mode ) ) ,
+/*@C03.flagflow.merged*/ ! mode_empty ( & sketch . mode ) && mode_is_array ( & sketch . mode ) ==> ( ( ! mode_empty ( & old ( self ) . gadget . mode ) && old ( self ) . gadget . mode is Array8 ) || mode_lg ( & sketch . mode ) > old ( self ) . lg_max_k ==> mode_ooo ( & final ( self ) . gadget . mode ) ) ,
+/*@C03.update.sparse*/ ! mode_empty ( & sketch . mode ) && ! mode_is_array ( & sketch . mode ) ==> sparse_update_post ( old ( self ) , sketch , final ( self ) ) ,
+/*@C03.update.nonempty*/ ! mode_empty ( & sketch . mode ) ==> ! mode_empty ( & final ( self ) . gadget . mode ) , {
+if sketch . is_empty ( ) {
+return ;
+}
+let src_lg_k = sketch . lg_config_k ( ) ;
+let dst_lg_k = self . gadget . lg_config_k ( ) ;
+let src_mode = sketch . mode ( ) ;
+match src_mode {
+Mode :: List {
+.. }
+| Mode :: Set {
+.. }
+=> {
+self . update_from_list_or_set ( sketch , src_mode , src_lg_k , dst_lg_k ) ;
+}
+Mode :: Array4 ( _ ) | Mode :: Array6 ( _ ) | Mode :: Array8 ( _ ) => {
+self . update_from_array ( src_mode , src_lg_k , dst_lg_k ) ;
+}
+}
+}
 
-        let src_lg_k = sketch.lg_config_k();
-        let dst_lg_k = self.gadget.lg_config_k();
-        let src_mode = sketch.mode();
 
-        match src_mode {
-            Mode::List { .. } | Mode::Set { .. } => {
-                self.update_from_list_or_set(sketch, src_mode, src_lg_k, dst_lg_k);
-            }
-            Mode::Array4(_) | Mode::Array6(_) | Mode::Array8(_) => {
-                self.update_from_array(src_mode, src_lg_k, dst_lg_k);
-            }
-        }
-    }
+    fn update_from_list_or_set ( & mut self , sketch : & HllSketch , src_mode : & Mode , src_lg_k : u8 , dst_lg_k : u8 , ) requires old ( self ) . uwf ( ) , sk_wf ( sketch ) , * src_mode == sketch . mode , ! mode_is_array ( src_mode ) , src_lg_k == sketch . lg_config_k , dst_lg_k == old ( self ) . gadget . lg_config_k ensures final ( self ) . uwf ( ) , final ( self ) . lg_max_k == old ( self ) . lg_max_k ,
+/*@C03.update.sparse*/ sparse_update_post ( old ( self ) , sketch , final ( self ) ) ,
+/*@C03.update.nonempty*/ ! mode_empty ( src_mode ) ==> ! mode_empty ( & final ( self ) . gadget . mode ) , {
+if self . gadget . is_empty ( ) && src_lg_k == dst_lg_k {
+self . gadget = if sketch . target_type ( ) == HllType :: Hll8 {
+sketch . clone ( ) }
+else {
+convert_coupon_mode_to_hll8 ( src_mode , src_lg_k ) }
+;
+}
+else {
+merge_coupons_into_gadget ( & mut self . gadget , src_mode ) ;
+}
+}
 
-    fn update_from_list_or_set(
-        &mut self,
-        sketch: &HllSketch,
-        src_mode: &Mode,
-        src_lg_k: u8,
-        dst_lg_k: u8,
-    )
-      requires old(self).uwf(), sk_wf(sketch), *src_mode == sketch.mode, !mode_is_array(src_mode), src_lg_k == sketch.lg_config_k, dst_lg_k == old(self).gadget.lg_config_k
-      ensures final(self).uwf(), final(self).lg_max_k == old(self).lg_max_k,
-        /*@C03.update.sparse*/ sparse_update_post(old(self), sketch, final(self)),
-        /*@C03.update.nonempty*/ !mode_empty(src_mode) ==> !mode_empty(&final(self).gadget.mode),
-    {
-        // Fast path: If gadget is empty and lg_k matches, directly copy as HLL_8
-        if self.gadget.is_empty() && src_lg_k == dst_lg_k {
-            self.gadget = if sketch.target_type() == HllType::Hll8 {
-                sketch.clone()
-            } else {
-                // Convert to Hll8 by changing target type
-                convert_coupon_mode_to_hll8(src_mode, src_lg_k)
-            };
-        } else {
-            // Regular path: merge coupons into gadget
-            merge_coupons_into_gadget(&mut self.gadget, src_mode);
-        }
-    }
 
-    fn update_from_array(&mut self, src_mode: &Mode, src_lg_k: u8, dst_lg_k: u8)
-      requires old(self).uwf(), mode_is_array(src_mode), mode_awf(src_mode), mode_lg(src_mode) == src_lg_k, dst_lg_k == old(self).gadget.lg_config_k
-      ensures final(self).uwf(), final(self).lg_max_k == old(self).lg_max_k,
-        final(self).gadget.mode is Array8,
-        /*@C03.update.lgk*/ final(self).gadget.lg_config_k == upd_lg(old(self), src_mode),
-        /*@C03.update.regs.copy*/ mode_empty(&old(self).gadget.mode) ==> mode_regs(&final(self).gadget.mode) == fold(mode_regs(src_mode), upd_lg(old(self), src_mode)),
-        /*@C03.update.regs.merge*/ !mode_empty(&old(self).gadget.mode) && old(self).gadget.mode is Array8 ==> mode_regs(&final(self).gadget.mode) == pmax(fold(mode_regs(&old(self).gadget.mode), upd_lg(old(self), src_mode)), fold(mode_regs(src_mode), upd_lg(old(self), src_mode))),
-        /*@C03.update.regs.promote*/ !mode_empty(&old(self).gadget.mode) && !(old(self).gadget.mode is Array8) ==> coupon_merge(fold(mode_regs(src_mode), upd_lg(old(self), src_mode)), mode_coupons(&old(self).gadget.mode), upd_lg(old(self), src_mode), mode_regs(&final(self).gadget.mode)),
-        /*@C03.flagflow.update*/ mode_ooo(src_mode) ==> mode_ooo(&final(self).gadget.mode),
-        /*@C03.flagflow.merged*/ (!mode_empty(&old(self).gadget.mode) && old(self).gadget.mode is Array8) || mode_lg(src_mode) > old(self).lg_max_k ==> mode_ooo(&final(self).gadget.mode),
-        /*@C03.update.nonempty*/ !mode_empty(src_mode) ==> !mode_empty(&final(self).gadget.mode),
-    {
-        // Fast path: If gadget is empty, just copy/downsample source
-        if self.gadget.is_empty() {
-            let new_array = copy_or_downsample(src_mode, src_lg_k, self.lg_max_k);
-            proof {
-                lemma_k(new_array.lg());
-                if !mode_empty(src_mode) { lemma_nonzero_iff(mode_regs(src_mode)); lemma_fold_nonzero(mode_regs(src_mode), new_array.lg()); lemma_nonzero_iff(new_array.regs()); }
-            }
-            let final_lg_k = new_array.num_registers().trailing_zeros() as u8;
-            self.gadget = HllSketch::from_mode(final_lg_k, Mode::Array8(new_array));
-            return;
-        }
+    fn update_from_array ( & mut self , src_mode : & Mode , src_lg_k : u8 , dst_lg_k : u8 ) requires old ( self ) . uwf ( ) , mode_is_array ( src_mode ) , mode_awf ( src_mode ) , mode_lg ( src_mode ) == src_lg_k , dst_lg_k == old ( self ) . gadget . lg_config_k ensures final ( self ) . uwf ( ) , final ( self ) . lg_max_k == old ( self ) . lg_max_k , final ( self ) . gadget . mode is Array8 ,
+/*@C03.update.lgk*/ final ( self ) . gadget . lg_config_k == upd_lg ( old ( self ) , src_mode ) ,
+/*@C03.update.regs.copy*/ mode_empty ( & old ( self ) . gadget . mode ) ==> mode_regs ( & final ( self ) . gadget . mode ) == fold ( mode_regs ( src_mode ) , upd_lg ( old ( self ) , src_mode ) ) ,
+/*@C03.update.regs.merge*/ ! mode_empty ( & old ( self ) . gadget . mode ) && old ( self ) . gadget . mode is Array8 ==> mode_regs ( & final ( self ) . gadget . mode ) == pmax ( fold ( mode_regs ( & old ( self ) . gadget . mode ) , upd_lg ( old ( self ) , src_mode ) ) , fold ( mode_regs ( src_mode ) , upd_lg ( old ( self ) , src_mode ) ) ) ,
+/*@C03.update.regs.promote*/ ! mode_empty ( & old ( self ) . gadget . mode ) && ! ( old ( self ) . gadget . mode is Array8 ) ==> coupon_merge ( fold ( mode_regs ( src_mode ) , upd_lg ( old ( self ) , src_mode ) ) , mode_coupons ( & old ( self ) . gadget . mode ) , upd_lg ( old ( self ) , src_mode ) , mode_regs ( & final ( self ) . gadget . mode ) ) ,
+/*@C03.flagflow.update*/ mode_ooo ( src_mode ) ==> mode_ooo ( & final ( self ) . gadget . mode ) ,
+/*@C03.flagflow.merged*/ ( ! mode_empty ( & old ( self ) . gadget . mode ) && old ( self ) . gadget . mode is Array8 ) || mode_lg ( src_mode ) > old ( self ) . lg_max_k ==> mode_ooo ( & final ( self ) . gadget . mode ) ,
+/*@C03.update.nonempty*/ ! mode_empty ( src_mode ) ==> ! mode_empty ( & final ( self ) . gadget . mode ) , {
+if self . gadget . is_empty ( ) {
+let new_array = copy_or_downsample ( src_mode , src_lg_k , self . lg_max_k ) ;
+proof {
+lemma_k ( new_array . lg ( ) ) ;
+if ! mode_empty ( src_mode ) {
+lemma_nonzero_iff ( mode_regs ( src_mode ) ) ;
+lemma_fold_nonzero ( mode_regs ( src_mode ) , new_array . lg ( ) ) ;
+lemma_nonzero_iff ( new_array . regs ( ) ) ;
+}
+}
+let final_lg_k = new_array . num_registers ( ) . trailing_zeros ( ) as u8 ;
+self . gadget = HllSketch :: from_mode ( final_lg_k , Mode :: Array8 ( new_array ) ) ;
+return ;
+}
+let is_gadget_array = matches! ( self . gadget . mode ( ) , Mode :: Array8 ( _ ) ) ;
+if is_gadget_array {
+self . merge_array_into_array_gadget ( src_mode , src_lg_k , dst_lg_k ) ;
+}
+else {
+self . promote_gadget_and_merge_array ( src_mode , src_lg_k ) ;
+}
+}
 
-        let is_gadget_array = matches!(self.gadget.mode(), Mode::Array8(_));
 
-        if is_gadget_array {
-            self.merge_array_into_array_gadget(src_mode, src_lg_k, dst_lg_k);
-        } else {
-            self.promote_gadget_and_merge_array(src_mode, src_lg_k);
-        }
-    }
+    fn merge_array_into_array_gadget ( & mut self , src_mode : & Mode , src_lg_k : u8 , dst_lg_k : u8 ) requires old ( self ) . uwf ( ) , old ( self ) . gadget . mode is Array8 , mode_awf ( src_mode ) , mode_lg ( src_mode ) == src_lg_k , dst_lg_k == old ( self ) . gadget . lg_config_k ensures final ( self ) . uwf ( ) , final ( self ) . lg_max_k == old ( self ) . lg_max_k , final ( self ) . gadget . mode is Array8 ,
+/*@C03.update.lgk*/ final ( self ) . gadget . lg_config_k == min8 ( src_lg_k , dst_lg_k ) ,
+/*@C03.update.regs*/ mode_regs ( & final ( self ) . gadget . mode ) == pmax ( fold ( mode_regs ( & old ( self ) . gadget . mode ) , min8 ( src_lg_k , dst_lg_k ) ) , fold ( mode_regs ( src_mode ) , min8 ( src_lg_k , dst_lg_k ) ) ) ,
+/*@C03.flagflow.merged*/ mode_ooo ( & final ( self ) . gadget . mode ) ,
+/*@C03.update.nonempty*/ ! mode_empty ( src_mode ) ==> ! mode_empty ( & final ( self ) . gadget . mode ) , {
+if src_lg_k < dst_lg_k {
+let mut new_array = Array8 :: new ( src_lg_k ) ;
+match self . gadget . mode ( ) {
+Mode :: Array8 ( old_gadget ) => {
+proof {
+lemma_k ( src_lg_k ) ;
+lemma_pmax_zeros ( fold ( old_gadget . regs ( ) , src_lg_k ) ) ;
+}
+merge_array_with_downsample ( & mut new_array , src_lg_k , & Mode :: Array8 ( old_gadget . clone ( ) ) , dst_lg_k , ) ;
+}
+_ => {
+unreachable! ( ) }
+}
+proof {
+lemma_fold_id ( mode_regs ( src_mode ) , src_lg_k ) ;
+}
+merge_array_same_lgk ( & mut new_array , src_mode ) ;
+self . gadget = HllSketch :: from_mode ( src_lg_k , Mode :: Array8 ( new_array ) ) ;
+}
+else {
+proof {
+lemma_fold_id ( mode_regs ( & self . gadget . mode ) , dst_lg_k ) ;
+}
+match self . gadget . mode_mut ( ) {
+Mode :: Array8 ( dst_array ) => {
+merge_array_into_array8 ( dst_array , dst_lg_k , src_mode , src_lg_k ) ;
+}
+_ => {
+unreachable! ( ) }
+}
+}
+proof {
+if ! mode_empty ( src_mode ) {
+let lg1 = min8 ( src_lg_k , dst_lg_k ) ;
+lemma_k ( lg1 ) ;
+lemma_nonzero_iff ( mode_regs ( src_mode ) ) ;
+lemma_fold_nonzero ( mode_regs ( src_mode ) , lg1 ) ;
+lemma_pmax_nonzero ( fold ( mode_regs ( & old ( self ) . gadget . mode ) , lg1 ) , fold ( mode_regs ( src_mode ) , lg1 ) ) ;
+lemma_nonzero_iff ( mode_regs ( & self . gadget . mode ) ) ;
+}
+}
+}
 
-    fn merge_array_into_array_gadget(&mut self, src_mode: &Mode, src_lg_k: u8, dst_lg_k: u8)
-      requires old(self).uwf(), old(self).gadget.mode is Array8, mode_awf(src_mode), mode_lg(src_mode) == src_lg_k, dst_lg_k == old(self).gadget.lg_config_k
-      ensures final(self).uwf(), final(self).lg_max_k == old(self).lg_max_k, final(self).gadget.mode is Array8,
-        /*@C03.update.lgk*/ final(self).gadget.lg_config_k == min8(src_lg_k, dst_lg_k),
-        /*@C03.update.regs*/ mode_regs(&final(self).gadget.mode) == pmax(fold(mode_regs(&old(self).gadget.mode), min8(src_lg_k, dst_lg_k)), fold(mode_regs(src_mode), min8(src_lg_k, dst_lg_k))),
-        /*@C03.flagflow.merged*/ mode_ooo(&final(self).gadget.mode),
-        /*@C03.update.nonempty*/ !mode_empty(src_mode) ==> !mode_empty(&final(self).gadget.mode),
-    {
-        if src_lg_k < dst_lg_k {
-            // Source has lower precision - must downsize gadget
-            let mut new_array = Array8::new(src_lg_k);
 
-            match self.gadget.mode() {
-                Mode::Array8(old_gadget) => {
-                    proof { lemma_k(src_lg_k); lemma_pmax_zeros(fold(old_gadget.regs(), src_lg_k)); }
-                    merge_array_with_downsample(
-                        &mut new_array,
-                        src_lg_k,
-                        &Mode::Array8(old_gadget.clone()),
-                        dst_lg_k,
-                    );
-                }
-                _ => {
-                    unreachable!()
-                }
-            }
+    fn promote_gadget_and_merge_array ( & mut self , src_mode : & Mode , src_lg_k : u8 ) requires old ( self ) . uwf ( ) , ! mode_is_array ( & old ( self ) . gadget . mode ) , mode_awf ( src_mode ) , mode_lg ( src_mode ) == src_lg_k ensures final ( self ) . uwf ( ) , final ( self ) . lg_max_k == old ( self ) . lg_max_k , final ( self ) . gadget . mode is Array8 ,
+/*@C03.update.lgk*/ final ( self ) . gadget . lg_config_k == min8 ( src_lg_k , old ( self ) . lg_max_k ) ,
+/*@C03.update.regs*/ coupon_merge ( fold ( mode_regs ( src_mode ) , min8 ( src_lg_k , old ( self ) . lg_max_k ) ) , mode_coupons ( & old ( self ) . gadget . mode ) , min8 ( src_lg_k , old ( self ) . lg_max_k ) , mode_regs ( & final ( self ) . gadget . mode ) ) ,
+/*@C03.flagflow.update*/ mode_ooo ( src_mode ) ==> mode_ooo ( & final ( self ) . gadget . mode ) ,
+/*@C03.flagflow.merged*/ src_lg_k > old ( self ) . lg_max_k ==> mode_ooo ( & final ( self ) . gadget . mode ) ,
+/*@C03.update.nonempty*/ ! mode_empty ( src_mode ) ==> ! mode_empty ( & final ( self ) . gadget . mode ) , {
+let mut new_array = copy_or_downsample ( src_mode , src_lg_k , self . lg_max_k ) ;
+let ghost copied = new_array . regs ( ) ;
+let old_gadget_mode = self . gadget . mode ( ) ;
+merge_coupons_into_mode ( & mut new_array , old_gadget_mode ) ;
+proof {
+lemma_k ( new_array . lg ( ) ) ;
+if ! mode_empty ( src_mode ) {
+lemma_nonzero_iff ( mode_regs ( src_mode ) ) ;
+lemma_fold_nonzero ( mode_regs ( src_mode ) , new_array . lg ( ) ) ;
+lemma_coupon_merge_nonzero ( copied , mode_coupons ( old_gadget_mode ) , new_array . lg ( ) , new_array . regs ( ) ) ;
+lemma_nonzero_iff ( new_array . regs ( ) ) ;
+}
+}
+let final_lg_k = new_array . num_registers ( ) . trailing_zeros ( ) as u8 ;
+self . gadget = HllSketch :: from_mode ( final_lg_k , Mode :: Array8 ( new_array ) ) ;
+}
 
-            proof { lemma_fold_id(mode_regs(src_mode), src_lg_k); }
-            merge_array_same_lgk(&mut new_array, src_mode);
-            self.gadget = HllSketch::from_mode(src_lg_k, Mode::Array8(new_array));
-        } else {
-            // Standard merge: src_lg_k >= dst_lg_k
-            proof { lemma_fold_id(mode_regs(&self.gadget.mode), dst_lg_k); }
-            match self.gadget.mode_mut() {
-                Mode::Array8(dst_array) => {
-                    merge_array_into_array8(dst_array, dst_lg_k, src_mode, src_lg_k);
-                }
-                _ => {
-                    unreachable!()
-                }
-            }
-        }
-        proof {
-            if !mode_empty(src_mode) {
-                let lg1 = min8(src_lg_k, dst_lg_k);
-                lemma_k(lg1);
-                lemma_nonzero_iff(mode_regs(src_mode)); lemma_fold_nonzero(mode_regs(src_mode), lg1);
-                lemma_pmax_nonzero(fold(mode_regs(&old(self).gadget.mode), lg1), fold(mode_regs(src_mode), lg1));
-                lemma_nonzero_iff(mode_regs(&self.gadget.mode));
-            }
-        }
-    }
 
-    fn promote_gadget_and_merge_array(&mut self, src_mode: &Mode, src_lg_k: u8)
-      requires old(self).uwf(), !mode_is_array(&old(self).gadget.mode), mode_awf(src_mode), mode_lg(src_mode) == src_lg_k
-      ensures final(self).uwf(), final(self).lg_max_k == old(self).lg_max_k, final(self).gadget.mode is Array8,
-        /*@C03.update.lgk*/ final(self).gadget.lg_config_k == min8(src_lg_k, old(self).lg_max_k),
-        /*@C03.update.regs*/ coupon_merge(fold(mode_regs(src_mode), min8(src_lg_k, old(self).lg_max_k)), mode_coupons(&old(self).gadget.mode), min8(src_lg_k, old(self).lg_max_k), mode_regs(&final(self).gadget.mode)),
-        /*@C03.flagflow.update*/ mode_ooo(src_mode) ==> mode_ooo(&final(self).gadget.mode),
-        /*@C03.flagflow.merged*/ src_lg_k > old(self).lg_max_k ==> mode_ooo(&final(self).gadget.mode),
-        /*@C03.update.nonempty*/ !mode_empty(src_mode) ==> !mode_empty(&final(self).gadget.mode),
-    {
-        let mut new_array = copy_or_downsample(src_mode, src_lg_k, self.lg_max_k);
+    fn to_sketch ( & self , hll_type : HllType ) -> ( r : HllSketch ) requires self . uwf ( ) ensures r . lg_config_k == self . gadget . lg_config_k , sk_type ( & r . mode ) == hll_type , mode_is_array ( & r . mode ) == mode_is_array ( & self . gadget . mode ) , ( r . mode is List ) == ( self . gadget . mode is List ) ,
+/*@C03.to_sketch.sparse*/ mode_coupons ( & r . mode ) == mode_coupons ( & self . gadget . mode ) ,
+/*@C03.to_sketch.regs*/ mode_regs ( & r . mode ) == conv_regs ( mode_regs ( & self . gadget . mode ) , hll_type ) ,
+/*@C03.to_sketch.regs*/ bounded ( mode_regs ( & self . gadget . mode ) ) ==> mode_regs ( & r . mode ) == mode_regs ( & self . gadget . mode ) ,
+/*@C03.to_sketch.flag*/ mode_ooo ( & r . mode ) == mode_ooo ( & self . gadget . mode ) , {
+let gadget_type = self . gadget . target_type ( ) ;
+if hll_type == gadget_type {
+return self . gadget . clone ( ) ;
+}
+match self . gadget . mode ( ) {
+Mode :: List {
+list , .. }
+=> HllSketch :: from_mode ( self . gadget . lg_config_k ( ) , Mode :: List {
+list : list . clone ( ) , hll_type , }
+, ) , Mode :: Set {
+set , .. }
+=> HllSketch :: from_mode ( self . gadget . lg_config_k ( ) , Mode :: Set {
+set : set . clone ( ) , hll_type , }
+, ) , Mode :: Array8 ( array8 ) => {
+convert_array8_to_type ( array8 , self . gadget . lg_config_k ( ) , hll_type ) }
+Mode :: Array4 ( _ ) | Mode :: Array6 ( _ ) => {
+unreachable! ( ) }
+}
+}
 
-        let ghost copied = new_array.regs();
-        let old_gadget_mode = self.gadget.mode();
-        merge_coupons_into_mode(&mut new_array, old_gadget_mode);
 
-        proof {
-            lemma_k(new_array.lg());
-            if !mode_empty(src_mode) {
-                lemma_nonzero_iff(mode_regs(src_mode)); lemma_fold_nonzero(mode_regs(src_mode), new_array.lg());
-                lemma_coupon_merge_nonzero(copied, mode_coupons(old_gadget_mode), new_array.lg(), new_array.regs());
-                lemma_nonzero_iff(new_array.regs());
-            }
-        }
-        let final_lg_k = new_array.num_registers().trailing_zeros() as u8;
-        self.gadget = HllSketch::from_mode(final_lg_k, Mode::Array8(new_array));
-    }
+    fn reset ( & mut self ) requires 4 <= old ( self ) . lg_max_k <= 21 ensures final ( self ) . uwf ( ) , final ( self ) . lg_max_k == old ( self ) . lg_max_k ,
+/*@C03.reset*/ mode_empty ( & final ( self ) . gadget . mode ) && final ( self ) . gadget . lg_config_k == final ( self ) . lg_max_k , {
+self . gadget = HllSketch :: new ( self . lg_max_k , HllType :: Hll8 ) ;
+}
 
-    fn to_sketch(&self, hll_type: HllType) -> (r: HllSketch)
-      requires self.uwf()
-      ensures r.lg_config_k == self.gadget.lg_config_k, sk_type(&r.mode) == hll_type, mode_is_array(&r.mode) == mode_is_array(&self.gadget.mode),
-        (r.mode is List) == (self.gadget.mode is List),
-        /*@C03.to_sketch.sparse*/ mode_coupons(&r.mode) == mode_coupons(&self.gadget.mode),
-        /*@C03.to_sketch.regs*/ mode_regs(&r.mode) == conv_regs(mode_regs(&self.gadget.mode), hll_type),
-        /*@C03.to_sketch.regs*/ bounded(mode_regs(&self.gadget.mode)) ==> mode_regs(&r.mode) == mode_regs(&self.gadget.mode),
-        /*@C03.to_sketch.flag*/ mode_ooo(&r.mode) == mode_ooo(&self.gadget.mode),
-    {
-        let gadget_type = self.gadget.target_type();
-
-        if hll_type == gadget_type {
-            return self.gadget.clone();
-        }
-
-        match self.gadget.mode() {
-            Mode::List { list, .. } => HllSketch::from_mode(
-                self.gadget.lg_config_k(),
-                Mode::List {
-                    list: list.clone(),
-                    hll_type,
-                },
-            ),
-            Mode::Set { set, .. } => HllSketch::from_mode(
-                self.gadget.lg_config_k(),
-                Mode::Set {
-                    set: set.clone(),
-                    hll_type,
-                },
-            ),
-            Mode::Array8(array8) => {
-                convert_array8_to_type(array8, self.gadget.lg_config_k(), hll_type)
-            }
-            Mode::Array4(_) | Mode::Array6(_) => {
-                unreachable!()
-            }
-        }
-    }
-
-    fn reset(&mut self)
-      requires 4 <= old(self).lg_max_k <= 21
-      ensures final(self).uwf(), final(self).lg_max_k == old(self).lg_max_k,
-        /*@C03.reset*/ mode_empty(&final(self).gadget.mode) && final(self).gadget.lg_config_k == final(self).lg_max_k,
-    {
-        self.gadget = HllSketch::new(self.lg_max_k, HllType::Hll8);
-    }
 }
 
 // the lg_k of the gadget after absorbing an array-mode source m: the smallest of lg_max_k, the gadget's (when it is an array) and the source's
